@@ -14,7 +14,9 @@ JExtrema(e) ==
 
 JExpiryProbe(e) ==
   LET cls == e.fn \o "/" \o (IF "cls" \in DOMAIN e THEN e.cls ELSE "-") IN
-  << R("C15", "expiry_a_day_in_the_past_is_expired", e.r.ok /\ e.delta <= -86400, e.r.expired, cls),
-     R("C15", "expiry_a_day_in_the_future_is_not_expired", e.r.ok /\ e.delta >= 86400, ~e.r.expired, cls),
+  << R("C15", "expiry_a_day_in_the_past_is_expired", e.r.ok /\ e.delta <= -86400 /\ "abs" \notin DOMAIN e, e.r.expired, cls),
+     R("C15", "expiry_a_day_in_the_future_is_not_expired", e.r.ok /\ e.delta >= 86400 /\ "abs" \notin DOMAIN e, ~e.r.expired, cls),
+     \* no wrap-around: an exact expiry beyond 2^32 s (year 2106) is not over, one in 1970 is
+     R("C15", "expiry_sum_does_not_wrap", e.r.ok /\ "expect" \in DOMAIN e /\ e.expect # "unknown", e.r.expired = (e.expect = "past"), cls),
      R("C15", "probe_parses", TRUE, e.r.ok, cls) >>
 =============================================================================
